@@ -973,6 +973,10 @@ class state( dict ):
                     # increasing integers)
                     xformed	= list( enumerate( encoder( sym )))
                     assert len( xformed ) > 0
+                    if nxt not in states:
+                        # A transition into a "dead" state; refuse the first encoded symbol, instead
+                        # of consuming all but the last before failing.
+                        xformed	= xformed[:1]
                     #log.debug( "%s <- %-10.10r: Encoded to %r", states[pre].name_centered(), sym, xformed )
                     if len( xformed ) > 1:
                         assert ( 1 <= len( machine.map[pre] ) <= 2 ), \
